@@ -44,11 +44,10 @@ end
 common fragment: nested objects and arrays, rgb values, ghost objects, empty containers, every scalar kind and
 payload encoding — the tape path (tape parser model, either variant, then `deTape`), the on-demand path and the
 streaming path (lexer model, then `deOndemand` / `deStream`) return the same value, and it is the reference value
-`valueOfBin` of the document; for every resolver, every strategy and every fitting root request without `u16`
-targets. -/
+`valueOfBin` of the document; for every resolver, every strategy and every fitting root request. -/
 theorem C04_paths_end_to_end (c : Cfg) (ty : RootTy) (d : BinTape.Fields)
     (hm : noMixedF d = true) (hw : d.wfDoc = true) (hc : canonF d = true)
-    (hfit : fitsRoot c ty (toBDoc d) = true) (hu : noU16Root ty = true) (opt : Bool)
+    (hfit : fitsRoot c ty (toBDoc d) = true) (opt : Bool)
     (T : BinTape.Tape) (hp : BinTape.parse opt d.encode = .ok T) :
     deTape c ty (toBinDeTape T) = deOndemand c ty (rawLexemes d.encode) ∧
     deTape c ty (toBinDeTape T) = deStream c ty (rawLexemes d.encode) ∧
@@ -57,6 +56,6 @@ theorem C04_paths_end_to_end (c : Cfg) (ty : RootTy) (d : BinTape.Fields)
   have hl := (lex_encode d hm hwf hc).2
   have hpl := plain_fields d hm hwf
   rw [parse_toBinDeTape d hm hw opt T hp, hl]
-  exact C04_tape_eq_ondemand c ty (toBDoc d) hpl hfit hu
+  exact C04_tape_eq_ondemand c ty (toBDoc d) hpl hfit
 
 end Jomini.BinDe
